@@ -91,6 +91,7 @@ def main():
     ap.add_argument("--checks", help="comma list of checks to run instead of the mutant's own property")
     ap.add_argument("--seeds", default="0", help="comma list of VERIF_SEED values; caught = caught under every seed")
     ap.add_argument("--update-meta", action="store_true", help="record the result under 'recheck' in seeded/<id>/meta.json")
+    ap.add_argument("--part", help="K/N: only every N-th entry starting at K (to run N regressions side by side)")
     a = ap.parse_args()
     only = set(a.only.split(",")) if a.only else None
     todo = []
@@ -115,6 +116,9 @@ def main():
                 if a.mutant and name != a.mutant:
                     continue
                 todo.append({"id": name, "property": mj["property"], "patch": os.path.join(sd, name, "patch.diff")})
+    if a.part:
+        k, n = (int(x) for x in a.part.split("/"))
+        todo = todo[k::n]
     ok = True
     for m in todo:
         scratch = make_scratch(m["id"])
